@@ -59,3 +59,8 @@ pub(crate) fn tick_jitter(default: std::time::Duration) -> std::time::Duration {
         _ => default,
     }
 }
+
+pub use crate::config::verif as config;
+pub use crate::crypto::verif as crypto;
+pub use crate::middleware::verif as middleware;
+pub use crate::network::verif::*;
